@@ -14,6 +14,7 @@ import (
 	"os"
 	"reflect"
 	"strings"
+	"time"
 
 	"github.com/semihalev/twig"
 )
@@ -47,8 +48,15 @@ type S6 struct {
 	hidden int
 }
 
-func (s S6) Name() string   { return "m" }
-func (s *S6) PName() string { return "p" }
+func (s S6) Name() string    { return "m" }
+func (s *S6) PName() string  { return "p" }
+func (s *S6) AName() string  { return "a" }
+func (s *S6) ARename(string) {}
+
+type S7 struct {
+	*Base
+	K int
+}
 
 func shapeValue(sh string) interface{} {
 	switch sh {
@@ -64,15 +72,20 @@ func shapeValue(sh string) interface{} {
 		return S5{S3: S3{Z: 44, Base: Base{W: "w", X: 33}}, Q: 66}
 	case "S6":
 		return S6{X: 77, hidden: 99}
+	case "S7":
+		return S7{Base: &Base{W: "w", X: 33}, K: 88}
+	case "S7nil":
+		return S7{K: 88}
 	}
 	return nil
 }
 
 type AObj struct {
-	K   string `json:"k"`
-	Sh  string `json:"sh"`
-	Ptr bool   `json:"ptr"`
-	G   string `json:"g"`
+	K      string `json:"k"`
+	Sh     string `json:"sh"`
+	Ptr    bool   `json:"ptr"`
+	G      string `json:"g"`
+	EmbNil bool   `json:"embnil"`
 }
 
 func buildAObj(o AObj) interface{} {
@@ -85,7 +98,11 @@ func buildAObj(o AObj) interface{} {
 		}
 		return map[string]interface{}{"X": 8, "Y": 9}
 	}
-	v := shapeValue(o.Sh)
+	sh := o.Sh
+	if o.EmbNil {
+		sh += "nil"
+	}
+	v := shapeValue(sh)
 	if o.Ptr && v != nil {
 		p := reflect.New(reflect.TypeOf(v))
 		p.Elem().Set(reflect.ValueOf(v))
@@ -98,6 +115,7 @@ type AOp struct {
 	Obj   AObj   `json:"obj"`
 	N     string `json:"n"`
 	Want  []int  `json:"want"`
+	Any   bool   `json:"any"`   // the lookup is made but its result is not determined by the property
 	Flood int    `json:"flood"` // >0: look up this many fresh (type, name) pairs first
 }
 
@@ -177,6 +195,9 @@ func runAttrHist(c *ACase) (res Result) {
 				return
 			}
 			out, err := e.Render("t", map[string]interface{}{"o": obj})
+			if op.Any {
+				continue
+			}
 			if err != nil || out != want {
 				res.Pass = false
 				res.Fails = append(res.Fails, Fail{Run: fmt.Sprintf("op%d", i+1), Why: "member", Got: fmt.Sprintf("%q err=%v", out, err), Want: want, Src: strings.Join(trail, " ; ")})
@@ -208,9 +229,12 @@ func cmdAttrHist(args []string) {
 			fmt.Fprintln(os.Stderr, "harness: bad case:", err)
 			os.Exit(2)
 		}
-		res := runAttrHist(&c)
+		res, hung := guarded(20*time.Second, func() Result { return runAttrHist(&c) }, func() Result { return hangResult(c.Prop, c.Key, c.Tags, "lookup history") })
 		enc.Encode(res)
 		w.Flush()
+		if hung {
+			os.Exit(3)
+		}
 	}
 }
 
